@@ -16,7 +16,13 @@ RULE = ("every genome of <= 3 (thorough: 4) contigs, plus one ignored and one un
         "second stream and the lengths, forbes, jaccard, left_join. Key columns both as identifiers (Interval) and as `str`-typed "
         "ragged columns of a user dataclass (tests/test_multistream.py style), with contig sets where one name is a proper prefix "
         "of the next (chr1/chr10, c/ch/chr, chr1/chr1_alt) and the switch between them inside a chunk as well as on a chunk "
-        "border (every chunk a fresh table). Names with '_' both ignored (default filter) and included "
+        "border (every chunk a fresh table). EMPTY chunks (a filtered chunk) at every position of the chunk stream — before "
+        "the data, between contigs, strictly inside a contig's run including the last contig's, at the end — for every consumer. "
+        "Multi-step cases: other genome objects derived from / built next to the genome BEFORE the evaluation "
+        "(with_ignored_added, more objects over the same dict, sort_names) with the added/unknown name at every position incl. "
+        "last, evaluated through the ORIGINAL and through the derived object; several genomes over the same sizes with different "
+        "label tables (sort_names, permuted orders, filter on/off) evaluated back to back inside ONE case on the in-memory path "
+        "(mask_data + iter_chromosomes, get_intervals(table).as_stream()). Names with '_' both ignored (default filter) and included "
         "(filter disabled). Non-trivial = data order differs from genome order, or an unknown / ignored / absent contig")
 EXHAUSTIVE = {"quick": False, "thorough": False}
 MODEL_OPS = {"mem_pair", "iter", "iter_zip", "genome_mask", "genome_compute", "track", "ms", "ms_zip", "jaccard", "forbes", "left_join"}
